@@ -121,8 +121,10 @@ section Pratt
 open P
 
 /-- PRECEDENCE AND ASSOCIATIVITY, FOR EVERY EXPRESSION TREE. Take any tree over atoms (identifiers, integer,
-    string and boolean literals), registered binary operators, prefix operators (`!`, `-`) and index expressions
-    `a[i]`, `a[i][j]` (any expression as the index; chains over an atom as the indexed operand); print it with the minimal parentheses that the
+    string and boolean literals), registered binary operators, prefix operators (`!`, `-`), index expressions
+    `a[i]`, `a[i][j]`, `f(x)[i]` (any expression as the index; an atom, an index or a call as the indexed operand) and
+    calls `f()`, `f(a, b, …)` of a plain function name with ANY number of arguments, each any expression of the
+    fragment; print it with the minimal parentheses that the
     precedence table and LEFT associativity require (left operand at the operator's level, right operand one level
     tighter, the operand of a prefix operator tighter than every binary operator); put the tokens anywhere in a token array, followed by a token of lowest binding power. Then
     `parseExpression` at the lowest precedence returns exactly that tree, leaves the cursor on the expression's last
@@ -133,9 +135,10 @@ theorem C06_pratt_round_trip (e : PE) (s : PS) (f : Nat) (hwf : e.WF) (eo : EofO
     (hnext : precOf (tokAt s (s.pos + (pr (Gen.LOWEST + 1) e).length)).type = Gen.LOWEST)
     (hna : (tokAt s (s.pos + (pr (Gen.LOWEST + 1) e).length)).type ≠ .ASSIGN)
     (hnd : (tokAt s (s.pos + (pr (Gen.LOWEST + 1) e).length)).type ≠ .DOT)
+    (hnb : (tokAt s (s.pos + (pr (Gen.LOWEST + 1) e).length)).type ≠ .LBRACE)
     (hf : 14 + P.C * rem s ≤ f) :
     parseExpression f Gen.LOWEST s = .ok (some e.toExpr, s.at (s.pos + (pr (Gen.LOWEST + 1) e).length - 1)) :=
-  parse_print e s f hwf eo hat hnext hna hnd hf
+  parse_print e s f hwf eo hat hnext hna hnd hnb hf
 
 /-- flat left-associative chain: a o1 b o2 c with equal binding power prints without parentheses as the LEFT-nested tree -/
 theorem C06_print_left_assoc (o1 o2 lp rp a b c : Token) (xa xb xc : Expr) (h : precOf o1.type = precOf o2.type)
@@ -201,7 +204,7 @@ example : parseExpression 400 Gen.LOWEST sDemo = .ok (some eDemo.toExpr, sDemo.a
     apply C06_print_left_assoc <;> decide
   have := parse_print eDemo sDemo 400 hwf rfl
     (by rw [hpr]; intro k hk; rcases k with _|_|_|_|_|k <;> first | rfl | (simp at hk; omega))
-    (by rw [hpr]; decide) (by rw [hpr]; decide) (by rw [hpr]; decide) (by decide)
+    (by rw [hpr]; decide) (by rw [hpr]; decide) (by rw [hpr]; decide) (by rw [hpr]; decide) (by decide)
   rw [hpr] at this
   exact this
 
@@ -221,7 +224,30 @@ example : parseExpression 1000 Gen.LOWEST sIdx = .ok (some eIdx.toExpr, sIdx.at 
     decide
   have := parse_print eIdx sIdx 1000 hwf rfl
     (by rw [hpr]; intro k hk; rcases k with _|_|_|_|_|_|_|_|_|_|_|_|k <;> first | rfl | (simp at hk; omega))
-    (by rw [hpr]; decide) (by rw [hpr]; decide) (by rw [hpr]; decide) (by decide)
+    (by rw [hpr]; decide) (by rw [hpr]; decide) (by rw [hpr]; decide) (by rw [hpr]; decide) (by decide)
+  rw [hpr] at this
+  exact this
+
+/-! non-vacuity for calls: `f(1 - 2, a[3], g())[1] * b %>` parses as `(f((1 - 2), a[3], g())[1]) * b` -/
+def tComma : Token := { type := .COMMA, lit := [44], line := 1 }
+def cG : PE := .call0 (tId 103) tLP tRP
+def cF : PE := .call (tId 102) tLP tRP (.acons (.bin tMinus tLP tRP a1 a2) tComma (.acons (.idx tLB tRB aA a3) tComma (.aone cG)))
+def eCall : PE := .bin tStar tLP tRP (.idx tLB tRB cF a1) aB
+def sCall : PS := { toks := #[tId 102, tLP, tI 49, tMinus, tI 50, tComma, tId 97, tLB, tI 51, tRB, tComma, tId 103, tLP, tRP, tRP,
+    tLB, tI 49, tRB, tStar, tId 98, tEnd], eof := tEOF }
+
+example : parseExpression 2000 Gen.LOWEST sCall = .ok (some eCall.toExpr, sCall.at 19) := by
+  have hwf : eCall.WF := by
+    refine ⟨by decide, by decide, rfl, rfl, ⟨rfl, rfl, rfl, ⟨rfl, by decide, rfl, rfl, ?_⟩, rfl⟩, rfl⟩
+    refine ⟨⟨by decide, by decide, rfl, rfl, rfl, rfl⟩, rfl, ⟨rfl, rfl, rfl, rfl, rfl⟩, rfl, ?_⟩
+    exact ⟨rfl, by decide, rfl, rfl⟩
+  have hpr : pr (Gen.LOWEST + 1) eCall = [tId 102, tLP, tI 49, tMinus, tI 50, tComma, tId 97, tLB, tI 51, tRB, tComma, tId 103,
+      tLP, tRP, tRP, tLB, tI 49, tRB, tStar, tId 98] := by
+    decide
+  have := parse_print eCall sCall 2000 hwf rfl
+    (by rw [hpr]; intro k hk
+        rcases k with _|_|_|_|_|_|_|_|_|_|_|_|_|_|_|_|_|_|_|_|k <;> first | rfl | (simp at hk; omega))
+    (by rw [hpr]; decide) (by rw [hpr]; decide) (by rw [hpr]; decide) (by rw [hpr]; decide) (by decide)
   rw [hpr] at this
   exact this
 
